@@ -1238,6 +1238,22 @@ func c04RemainderThreaded(c *Ctx, bi bodyImpl, tname string, pc *ssa.Function) {
 			if h == nil || h == pc || len(h.Blocks) == 0 || h.Signature.Recv() == nil || namedOf(h.Signature.Recv().Type()) != bi.named {
 				continue
 			}
+			// only a call whose result is the body that PartialContent returns
+			isReturned := false
+			for _, rb := range pc.Blocks {
+				if ret, ok := rb.Instrs[len(rb.Instrs)-1].(*ssa.Return); ok && len(ret.Results) >= 2 {
+					v := ret.Results[1]
+					if mi, ok := v.(*ssa.MakeInterface); ok {
+						v = mi.X
+					}
+					if v == ssa.Value(call) {
+						isReturned = true
+					}
+				}
+			}
+			if !isReturned {
+				continue
+			}
 			lits := complitsOf(h, bi.named)
 			if len(lits) == 0 {
 				continue
